@@ -40,6 +40,10 @@ PRECOND = {
     'std::cell::RefCell::<T>::borrow_mut': 'already borrowed',
     'std::cell::RefCell::<T>::borrow': 'already mutably borrowed',
     'std::ops::Sub::sub': 'Instant/Duration subtraction underflow',
+    'std::ops::Add::add': 'Instant/Duration addition overflow (e.g. Instant::now() + Duration::MAX); use checked_add',
+    'std::ops::AddAssign::add_assign': 'Instant/Duration addition overflow',
+    'std::ops::SubAssign::sub_assign': 'Instant/Duration subtraction underflow',
+    'std::ops::Mul::mul': 'Duration multiplication overflow',
     'std::collections::VecDeque::<T, A>::swap': 'index out of bounds',
     'core::slice::<impl [T]>::swap': 'index out of bounds',
     'std::vec::Vec::<T, A>::remove': 'index out of bounds',
@@ -81,7 +85,8 @@ def sites_of(ctx, b):
             elif p in ('std::ops::Index::index', 'std::ops::IndexMut::index_mut'):
                 out.append(('index', 'index', bi, t))
             elif p in PRECOND:
-                if p == 'std::ops::Sub::sub' and not any(k in (t['func'].get('self_ty') or '') for k in ('Instant', 'Duration', 'SystemTime')):
+                if p.startswith('std::ops::') and not any(k in (t['func'].get('self_ty') or t['func'].get('full') or '').split(' as ')[0]
+                                                          for k in ('Instant', 'Duration', 'SystemTime')):
                     continue
                 out.append(('precond', p, bi, t))
         elif t['k'] == 'assert':
@@ -420,7 +425,10 @@ def _index_ok(ctx, p, b, fn, bi, base, idx):
         ty = b.local_ty(pl['l'])
     if 'HashMap<' in ty or 'BTreeMap<' in ty:
         # parent_map[&k]: k was inserted when it was enqueued (C18.bfs) — only for roadmap planners' path extraction
-        if p is not None and b.j.get('ret_ty', '').startswith('base::planner::Path<'):
+        owner = b
+        if b.kind == 'Closure' and '::{closure' in b.path:
+            owner = ctx.core.body(b.path.split('::{closure', 1)[0]) or b      # a closure of the path extractor (iter::successors walk)
+        if p is not None and owner.j.get('ret_ty', '').startswith('base::planner::Path<'):
             return 'inv', 'every index on the search frontier was inserted into the parent map when enqueued (C18.bfs)'
         return False, 'map lookup by index may panic on a missing key'
     # loop induction variable over the same vector
